@@ -1162,7 +1162,9 @@ def _apply_rolling(
 
     if values_are_times:
         if operation == "diff":
-            result = result.view("m8[ns]")
+            # a difference of timestamps is a timedelta in the unit of the input
+            unit = np.datetime_data(orig_dtype)[0]
+            result = result.view(f"m8[{unit}]")
         else:
             result = result.view(orig_dtype)
 
